@@ -9,6 +9,7 @@
 #include <fstream>
 #include <limits>
 #include <cerrno>
+#include <cfenv>
 #include <memory>
 #include <unistd.h>
 
@@ -454,7 +455,7 @@ template <typename T> struct Spec
     bool force_acc = false;
     Integrand<T> f; Map<T> map;
     bool builtin = true; int mode = 0; T target = T(); std::vector<bool> script;
-    std::string filename; bool keepfile = false; bool cbbase = false; bool cbref = false; int subcomm = 0; int ofmt = 0; bool iexc = false; int coutfmt = 0; bool churn = false; bool reuse = false; bool rbbase = false; bool noseek = false; bool cbint = false;
+    std::string filename; bool keepfile = false; bool cbbase = false; bool cbref = false; int subcomm = 0; int ofmt = 0; bool iexc = false; int coutfmt = 0; bool churn = false; bool reuse = false; bool rbbase = false; bool noseek = false; bool cbint = false; bool fenv = false;
 };
 
 #ifdef VERIF_MPI
@@ -566,7 +567,10 @@ template <typename T, typename C, typename Mk, typename MkMpi> Sx run_ops(Spec<T
             std::vector<std::size_t> calls;
             for (auto const& e : op.at(1).L_()) calls.push_back(e.N_());
             g_ctx->cbs.clear(); g_ctx->events.clear();
+            if (sp.fenv) std::feclearexcept(FE_ALL_EXCEPT);
             chk = run_one(calls, chk);
+            // (fenv: which floating-point exception flags the run left raised - only on request, the model has no such notion)
+            if (sp.fenv) g_ctx->cbs.push_back(Sx::list({Sx::sym("fenv"), Sx::num(std::fetestexcept(FE_INVALID) ? 1 : 0), Sx::num(std::fetestexcept(FE_DIVBYZERO) ? 1 : 0)}));
             Sx r = Sx::list({Sx::sym("run")});
             Sx cbs = Sx::list({Sx::sym("cbs")}); for (auto const& e : g_ctx->cbs) cbs.add(e);
             r.add(cbs);
@@ -740,6 +744,7 @@ template <typename T> Sx run_case(std::string const& cmd, Sx const& a)
     sp.rbbase = num("rbbase", 0) != 0;
     sp.noseek = num("noseek", 0) != 0;
     sp.cbint = num("cbint", 0) != 0;
+    sp.fenv = num("fenv", 0) != 0;
     // the state the program left std::cout in before it handed control to the library (restored when the case ends)
     struct CoutGuard
     {
